@@ -240,7 +240,7 @@ def run(chk):
         "one representative element of the field update; fields f1/f2 stand for f1_data/f2_data of the real lists",
         "regions containing CodeBlocks are executed by gfortran (-fcheck=bounds -ftrapv): program up to the region, "
         "every non-input scalar shifted by 1 and array by 1000, region, print all variables",
-        "DO WHILE semantics: RegionData.rexec with an iteration bound (100000 in the drivers) that no generated loop "
+        "DO WHILE semantics: RegionData.rexec with an iteration bound (2000 in the drivers) that no generated loop "
         "reaches (every generated loop is bounded by `w > 0 .and. w < 4` with w decremented last)",
         "region execution uses the MiniF semantics (lean/PsyVerif/Model/MiniF.lean, validated against gfortran "
         "by harness/minif_selftest.py), not gfortran"]
